@@ -73,10 +73,12 @@ impl<'a> Lexer<'a> {
 
     /// consume the whitespace sequence following the stream start
     pub fn next_stream(&mut self) -> Result<()> {
-        let pos = self.skip_whitespace(self.pos)?;
-        if !self.buf[pos ..].starts_with(b"stream") {
-            // bail!("next token isn't 'stream'");
+        // skip white-space and comments in front of the keyword
+        let (word, end) = self.next_word()?;
+        if !word.equals(b"stream") {
+            bail!("next token isn't 'stream'");
         }
+        let pos = end - 6;
         
         let &b0 = self.buf.get(pos + 6).ok_or(PdfError::EOF)?;
         if b0 == b'\n' {
